@@ -237,6 +237,16 @@ class Check:
             except OSError:
                 pass
         cmd = ["go", "build", "-tags", tags, "-o", exe]
+        if REPO != "/repo":
+            # alternative repository root (scratch worktree used for mutation testing): same go.mod with the
+            # replace directive pointing at it, passed with -modfile so the committed go.mod is untouched
+            tag = hashlib.sha1(REPO.encode()).hexdigest()[:8]
+            alt = os.path.join(cwd, "alt-%s.mod" % tag)
+            with Lock("gomod"):
+                txt = open(os.path.join(cwd, "go.mod")).read().replace("=> /repo", "=> " + REPO)
+                open(alt, "w").write(txt)
+                shutil.copyfile(os.path.join(REPO, "go.sum"), os.path.join(cwd, "alt-%s.sum" % tag))
+            cmd += ["-modfile", alt]
         if race:
             cmd.append("-race")
         cmd.append(pkg)
